@@ -261,6 +261,15 @@ def check_cli(ctx, case):
                             return problems
                         afp = V.floats(r["samples"][s]["AFP"])
                         gp = V.floats(r["samples"][s]["GP"])
+                        # same seed => same posterior: AFP / AOP of every listed haplotype equal the threshold-0 values of that sequence
+                        afp0 = V.floats(r0["samples"][s]["AFP"])
+                        aop = V.floats(r["samples"][s]["AOP"])
+                        for i, seq in enumerate(seqs):
+                            if seq in seqs0 and not ("REFMASKED" in r["INFO"] and i == 0):
+                                j = seqs0.index(seq)
+                                if i < len(afp) and afp[i] is not None and afp0[j] is not None and (abs(afp[i] - afp0[j]) > 0.0011 or abs((aop[i] or 0) - (aop0[s][j] or 0)) > 0.0011):
+                                    problems.append(Problem("cli:afp_of_listed_haplotype", "threshold %r sample %s haplotype %s: AFP/AOP %r/%r, at threshold 0 %r/%r" % (thr, s, seq, afp[i], aop[i], afp0[j], aop0[s][j])))
+                                    return problems
                         n_g = R.n_genotypes(len(seqs), case["ploidy"][s])
                         if gp != [None] and len(gp) != n_g:
                             problems.append(Problem("cli:gp_length", "sample %s GP has %d values for %d alleles ploidy %d" % (s, len(gp), len(seqs), case["ploidy"][s])))
